@@ -52,6 +52,10 @@ func opErr(e syscall.Errno) *net.OpError {
 
 var wrappedAbort = fmt.Errorf("wrapped: %w", http.ErrAbortHandler)
 
+type badStringer struct{ name string }
+
+func (b *badStringer) String() string { return "bad:" + b.name }
+
 func panicVals() []panicVal {
 	return []panicVal{
 		{name: "string", mk: func() any { return "s" }},
@@ -76,6 +80,9 @@ func panicVals() []panicVal {
 		}},
 		{name: "OpError ETIMEDOUT", mk: func() any { return opErr(syscall.ETIMEDOUT) }},
 		{name: "wrapped OpError EPIPE", mk: func() any { return fmt.Errorf("w: %w", opErr(syscall.EPIPE)) }, gray: true},
+		// values whose own formatting method panics (a typed nil pointer whose String reads a field): the
+		// recovery must not panic a second time while describing them
+		{name: "Stringer whose String panics", mk: func() any { var p *badStringer; return p }},
 		{name: "runtime error", mk: func() any {
 			var pv any
 			func() {
